@@ -107,6 +107,7 @@ type c02Case struct {
 	Steer       string // "", "r-lead0", "s-lead0", "r+s-lead0": force an encoding with a zero top byte
 	SteerSd     int
 	IDStyle     string // "", "blank", "shared": free-form id strings of the parties
+	Poll        bool   `json:",omitempty"` // the application polls WaitingFor() on every party after every step
 	OtherGlobal bool   // the process-global curve is left at secp256k1 although the parameters carry edwards25519
 	ShortSSID   bool   // dealer keys only: search for a key whose session id has a leading zero byte
 }
@@ -147,6 +148,7 @@ func genC02(t *rapid.T) c02Case {
 	c.ShortSSID = c.Key.Src == "dealer" && rapid.IntRange(0, 3).Draw(t, "shortssid") == 0
 	c.OtherGlobal = rapid.Bool().Draw(t, "otherGlobal")
 	c.IDStyle = rapid.SampledFrom([]string{"", "", "", "blank", "shared"}).Draw(t, "idStyle")
+	c.Poll = rapid.Bool().Draw(t, "poll")
 	return c
 }
 
@@ -284,6 +286,10 @@ func runC02(c c02Case) (out ev.Outcome) {
 	}
 	net, _, _ := sim.NewSigning(cfg)
 	c.Sched.apply(net)
+	if c.Poll {
+		pollWaitingFor(net)
+		defer func() { out.Label += " polled" }()
+	}
 	net.Run(c.Sched.Make(), 20000)
 	if e := honestRunProblems(net); e != nil {
 		return fail(e.sig, "%s", e.msg)
